@@ -126,4 +126,34 @@ theorem source_no_operation_rewinds :
 
 end SurfaceApi
 
+section SurfaceState
+open Orx.GenThms.Surface Orx.Gen
+
+/-- the state of every type is the model's: nothing beside the counters and the flag records progress (no deferred "hand-back", no
+second counter), so what `end_permanent` says about the counters says everything -/
+theorem source_state_is_the_models :
+    fieldsOf "AtomicCounter" = [["current: AtomicUsize"]] ∧
+    fieldsOf "ConIterOfSlice" = [["slice: &'a[T]", "counter: AtomicCounter"]] ∧
+    fieldsOf "ConIterOfRange" = [["range: Range<Idx>", "counter: AtomicCounter"]] ∧
+    fieldsOf "ConIterOfVec" = [["vec: UnsafeCell<ManuallyDrop<Vec<T>>>", "vec_len: usize", "counter: AtomicCounter"]] ∧
+    fieldsOf "ConIterOfArray" = [["array: UnsafeCell<ManuallyDrop<[T;N]>>", "counter: AtomicCounter"]] ∧
+    fieldsOf "ConIterOfIter" = [["iter: UnsafeCell<Iter>", "initial_len: Option<usize>", "reserved_counter: AtomicCounter",
+      "yielded_counter: AtomicCounter", "completed: AtomicBool"]] ∧
+    fieldsOf "CompleteOnUnwind" = [["completed: &'aAtomicBool", "armed: bool"]] ∧
+    fieldsOf "Taken" = [["ptr: *mutT", "len: usize", "idx: usize"]] ∧
+    fieldsOf "BufferedIter" = [["buffered_iter: B", "atomic_iter: &'aB::ConIter", "phantom: PhantomData<T>"],
+      ["values: &'amut[Option<T>]", "initial_len: usize", "current_idx: usize"]] ∧
+    fieldsOf "BufferIter" = [["values: Vec<Option<T>>", "phantom: PhantomData<Iter>"]] ∧
+    fieldsOf "BufferedSlice" = [["chunk_size: usize", "phantom: PhantomData<T>"]] ∧
+    fieldsOf "BufferedVec" = [["chunk_size: usize", "phantom: PhantomData<T>"]] ∧
+    fieldsOf "BufferedArray" = [["chunk_size: usize", "phantom: PhantomData<T>"]] ∧
+    fieldsOf "BufferedRange" = [["chunk_size: usize"]] ∧
+    fieldsOf "ClonedBufferedChunk" = [["chunk: C", "phantom: PhantomData<&'aT>"]] ∧
+    fieldsOf "CopiedBufferedChunk" = [["chunk: C", "phantom: PhantomData<&'aT>"]] ∧
+    fieldsOf "Cloned" = [["iter: A", "phantom: PhantomData<&'aT>"]] ∧ fieldsOf "Copied" = [["iter: A", "phantom: PhantomData<&'aT>"]] ∧
+    fieldsOf "ConIterValues" = [["con_iter: &'aC"]] ∧ fieldsOf "ConIterIdsAndValues" = [["con_iter: &'aC"]] :=
+  Orx.GenThms.Surface.the_state
+
+end SurfaceState
+
 end Orx.Props.C05
